@@ -83,6 +83,7 @@ type ContractSet struct {
 	SpecFuns map[string]*SpecFun
 	UFuns    map[string]*UFun
 	GhostVars map[string]string // ghost state variables: name -> Go integer type name (ghostvar NAME TYPE)
+	AutoInline []string         // dependency packages whose contract-less functions are executed inline
 	Axioms   []*Axiom
 	Files    []string
 	Instances map[string][]string // function key -> keys of its instance contracts ("key@label")
@@ -488,6 +489,13 @@ func (cs *ContractSet) parseLines(lines []string, file, pkgPath, schemaDir strin
 			default:
 				ts.Num = &cl
 			}
+			cur = nil
+			continue
+		case "autoinline":
+			if len(fields) != 2 {
+				return fmt.Errorf("%s: autoinline PKGPATH", where)
+			}
+			cs.AutoInline = append(cs.AutoInline, fields[1])
 			cur = nil
 			continue
 		case "ghostvar":
